@@ -32,8 +32,10 @@ fn no_dens<T>(_: &[T], _: usize) -> (DensOut, DensOut) {
 
 fn items_case<T: Hash + Clone + std::fmt::Debug>(ctx: &mut Ctx, tname: &str, conv: &dyn Fn(u64) -> T, dens: &dyn Fn(&[T], usize) -> (DensOut, DensOut), c: u64) {
     let mut rng = ctx.rng.fork();
-    let m = [1usize, 3, 8, 16, 64][c as usize % 5];
-    let n = [1usize, 2, 5, 17, 70][(c as usize / 5) % 5];
+    // (drawn from the generator: index arithmetic on the case number correlates the sizes with the item type)
+    let _ = c;
+    let m = *rng.pick(&[1usize, 3, 8, 16, 64]);
+    let n = *rng.pick(&[1usize, 2, 5, 17, 70, 70]);
     let ids = gen_stream(&mut rng, n);
     // distinct typed items (the conversion may merge ids: keep the first of each image)
     let mut seen = std::collections::HashSet::new();
@@ -98,8 +100,9 @@ fn items_case<T: Hash + Clone + std::fmt::Debug>(ctx: &mut Ctx, tname: &str, con
 
 fn keys_case<D: Copy + Eq + Hash + std::fmt::Debug>(ctx: &mut Ctx, tname: &str, conv: &dyn Fn(u64) -> D, init: D, c: u64) {
     let mut rng = ctx.rng.fork();
-    let m = [2usize, 4, 16, 64][c as usize % 4];
-    let n = [1usize, 3, 9, 40][(c as usize / 4) % 4];
+    let _ = c;
+    let m = *rng.pick(&[2usize, 4, 16, 64]);
+    let n = *rng.pick(&[1usize, 3, 9, 40, 40]);
     let ids = gen_stream(&mut rng, n);
     let mut keys: Vec<D> = Vec::new();
     for x in &ids { let k = conv(*x); if k != init && !keys.contains(&k) { keys.push(k); } }
